@@ -12,7 +12,7 @@ MANIFEST = dict(
     note='Trusted: TLC, CommunityModules Json, the structural exporter/renderer, the instruction-list builder of the harness (sizes/offsets of the test language and of STD th07-09). break/continue and if/else produced by the decompiler are not read by StoredTimes.tla (counted as unsupported). Times are the in-memory RawInstr.time (file field widths are C03).',
 )
 
-PLAIN = {"test": 100, "anm12": 0, "std08": 3, "msg06": 6}
+PLAIN = {"test": 100, "helper": 100, "anm12": 0, "std08": 3, "msg06": 6}
 
 
 def tok_class(toks):
@@ -61,54 +61,60 @@ def run_chunks(cmd, rows, wd, tag, formats, chunk=1500, par=6):
 
 
 # ------------------------------------------------------------------------------------------- compile
-def gen_label_seqs(cfg, wd):
-    out = os.path.join(wd, "cases_%s.ndjson" % cfg)
-    r = lib.tlc("Gen_LabelSeqs", cfg="Gen_LabelSeqs_%s.cfg" % cfg, env={"OUT": out}, workers=3, timeout=3000, name="c13_gen_" + cfg)
+def gen_label_seqs(tier, wd):
+    out = os.path.join(wd, "cases.ndjson")
+    r = lib.tlc("Gen_LabelSeqs", cfg="Gen_LabelSeqs_%s.cfg" % tier, env={"OUT": out}, workers=6, timeout=3000, name="c13_gen_labels")
     if not r.ok:
-        raise lib.ToolError("Gen_LabelSeqs (%s): in-model invariant failed — the specification itself is inconsistent\n%s" % (cfg, r.out[-3000:]))
+        raise lib.ToolError("Gen_LabelSeqs (%s): in-model invariant failed — the specification itself is inconsistent\n%s" % (tier, r.out[-3000:]))
     return r, lib.read_ndjson(out)
 
 
-def compile_direction(chk, wd, cfgs, only_toks=None):
+def gen_stored(cfg, wd):
+    out = os.path.join(wd, "rows.ndjson")
+    r = lib.tlc("Gen_StoredTimes", cfg=cfg, env={"OUT": out}, workers=4, timeout=3000, name="c13_gen_stored")
+    if not r.ok:
+        raise lib.ToolError("Gen_StoredTimes: in-model invariant failed — the specification itself is inconsistent\n" + r.out[-3000:])
+    return r, lib.read_ndjson(out)
+
+
+def compile_direction(chk, wd, gen, only=None):
     lim = Limiter()
-    with ThreadPoolExecutor(max_workers=len(cfgs)) as ex:
-        gens = list(ex.map(lambda c: gen_label_seqs(c, wd), cfgs))
-    for cfg, (r, cases) in zip(cfgs, gens):
-        chk.tlc_stats(r)
-        chk.add("generated_programs", len(cases))
-        if only_toks is not None:
-            cases = [c for c in cases if c["toks"] == only_toks]
-        outs = run_chunks("compile", cases, wd, "compile_" + cfg, formats=True)
-        for idx, (c, o) in enumerate(zip(cases, outs)):
-            toks, exp = c["toks"], c["exp"]
-            cls = tok_class(toks)
-            chk.add("traces_validated_against_impl")
-            for path, plain in PLAIN.items():
-                res = o.get(path)
-                if res is None:
-                    continue     # the format has no such construct (no jumps / no registers)
-                chk.add("compiled:" + path)
-                rep = {"dir": "compile", "cfg": cfg, "toks": toks, "path": path, "text": o["text"], "expected": exp, "observed": res}
-                if "panic" in res:
-                    k = lim.key("panic:compile:%s:%s" % (path, res["panic"]["loc"].replace("/repo/", "")))
-                    if k:
-                        chk.report(k, "compiling with %s panics: %s\n%s" % (path, res["panic"]["msg"], o["text"]), rep)
-                    continue
-                if "rejected" in res:
-                    chk.add("rejected")
-                    k = lim.key("rejected:%s:%s" % (path, cls))
-                    if k:
-                        chk.report(k, "%s rejects a program whose labels are all documented as supported: %s\n%s" % (path, res["rejected"], o["text"]), rep)
-                    continue
-                if res.get("warn"):
-                    chk.add("compiled_with_warning")
-                got = [t for (op, t) in res["instrs"] if op == plain]
-                if got != exp:
-                    k = lim.key("times:%s:%s" % (path, cls))
-                    if k:
-                        chk.report(k, "%s gives the instructions of\n%s the times %s, the label rules say %s" % (path, o["text"], got, exp), rep)
-            if idx % 977 == 5 and cls not in ("plain", "abs"):
-                chk.sample({"source": o["text"], "expected_times": exp, "observed": {p: o[p].get("instrs") for p in PLAIN if p in o}}, limit=3)
+    r, cases = gen
+    chk.tlc_stats(r)
+    chk.add("generated_programs", len(cases))
+    if only is not None:
+        cases = [c for c in cases if c["toks"] == only["toks"] and c["fam"] == only["fam"]]
+    outs = run_chunks("compile", cases, wd, "compile", formats=True)
+    for idx, (c, o) in enumerate(zip(cases, outs)):
+        toks, exp = c["toks"], c["exp"]
+        cls = tok_class(toks)
+        chk.add("traces_validated_against_impl")
+        for path, plain in PLAIN.items():
+            res = o.get(path)
+            if res is None:
+                continue     # the format has no such construct (no jumps / no registers)
+            chk.add("compiled:" + path)
+            rep = {"dir": "compile", "fam": c["fam"], "toks": toks, "path": path, "text": o["text"], "expected": exp, "observed": res}
+            if "panic" in res:
+                k = lim.key("panic:compile:%s:%s" % (path, res["panic"]["loc"].replace("/repo/", "")))
+                if k:
+                    chk.report(k, "compiling with %s panics: %s\n%s" % (path, res["panic"]["msg"], o["text"]), rep)
+                continue
+            if "rejected" in res:
+                chk.add("rejected")
+                k = lim.key("rejected:%s:%s" % (path, cls))
+                if k:
+                    chk.report(k, "%s rejects a program whose labels are all documented as supported: %s\n%s" % (path, res["rejected"], o["text"]), rep)
+                continue
+            if res.get("warn"):
+                chk.add("compiled_with_warning")
+            got = [t for (op, t) in res["instrs"] if op == plain]
+            if got != exp:
+                k = lim.key("times:%s:%s" % (path, cls))
+                if k:
+                    chk.report(k, "%s gives the instructions of\n%s the times %s, the label rules say %s" % (path, o["text"], got, exp), rep)
+        if idx % 977 == 5 and cls not in ("plain", "abs"):
+            chk.sample({"source": o["text"], "expected_times": exp, "observed": {p: o[p].get("instrs") for p in PLAIN if p in o}}, limit=3)
 
 
 # ----------------------------------------------------------------------------------------- decompile
@@ -117,23 +123,31 @@ def judge_shard(args):
     return lib.tlc("Obs_StoredTimes", env={"OBS": path}, workers=1, timeout=3000, name=tag, extra=("-continue",), heap="3g")
 
 
-def decompile_direction(chk, wd, cfg, only_row=None):
-    out = os.path.join(wd, "rows.ndjson")
-    r = lib.tlc("Gen_StoredTimes", cfg=cfg, env={"OUT": out}, workers=4, timeout=3000, name="c13_gen_stored")
-    if not r.ok:
-        raise lib.ToolError("Gen_StoredTimes: in-model invariant failed — the specification itself is inconsistent\n" + r.out[-3000:])
+def decompile_direction(chk, wd, gen, only_row=None, quick=False):
+    r, rows = gen
     chk.tlc_stats(r)
-    rows = lib.read_ndjson(out)
     chk.add("generated_stored_sequences", len(rows))
     if only_row is not None:
         rows = [x for x in rows if x["times"] == only_row["times"] and x["jumps"] == only_row["jumps"]]
-    outs = run_chunks("decompile", rows, wd, "decompile", formats=True, chunk=1000)
+    # quick tier: the real STD th08 decompiler gets every row with a jump and the jump-free rows up to
+    # length 4 (its label emitter is the one the Raiser path exercises on all rows)
+    if quick:
+        with_fmt = [x for x in rows if x["jumps"] or len(x["times"]) <= 4]
+        without = [x for x in rows if not (x["jumps"] or len(x["times"]) <= 4)]
+    else:
+        with_fmt, without = rows, []
+    rows = with_fmt + without
+    outs = run_chunks("decompile", with_fmt, wd, "decompile_f", formats=True, chunk=1000)
+    if without:
+        outs += run_chunks("decompile", without, wd, "decompile_t", formats=False, chunk=1000)
     lim = Limiter()
     obs = []       # rows for TLC
     for row, o in zip(rows, outs):
         chk.add("traces_validated_against_impl")
         shape = "jumps%d" % len(row["jumps"])
         for path in ("test", "std08"):
+            if path not in o:
+                continue
             res = o[path]
             rep = {"dir": "decompile", "path": path, "row": row, "observed": res}
             what = "stored times %s jumps %s (%s)" % (row["times"], json.dumps(row["jumps"]), path)
@@ -169,7 +183,7 @@ def decompile_direction(chk, wd, cfg, only_row=None):
             for t in trees:
                 obs.append({"times": row["times"], "jumps": row["jumps"], "tree": t, "path": path, "text": res["text"]})
     # TLC judges every tree with the documented label rules
-    shards = 4 if len(obs) > 600 else 1
+    shards = (3 if quick else 6) if len(obs) > 600 else 1
     jobs = []
     for j in range(shards):
         p = os.path.join(wd, "obs_%d.ndjson" % j)
@@ -206,22 +220,31 @@ def decompile_direction(chk, wd, cfg, only_row=None):
 def run(chk, replay=None):
     quick = chk.tier == "quick"
     wd = lib.workdir("c13")
-    cfgs = ["flat4", "nest1", "nest2"] if quick else ["flat5", "nest1w", "nest2w"]
+    tier = "quick" if quick else "thorough"
     stored_cfg = "Gen_StoredTimes.cfg" if quick else "Gen_StoredTimes_wide.cfg"
     if replay:
-        case = json.load(open(replay))["case"]
+        rp = json.load(open(replay))
+        case = rp["case"]
+        rtier = rp.get("tier", "quick")
         if case["dir"] == "compile":
-            compile_direction(chk, wd, [case["cfg"]], only_toks=case["toks"])
+            compile_direction(chk, wd, gen_label_seqs(rtier, wd), only=case)
         else:
-            decompile_direction(chk, wd, "Gen_StoredTimes_wide.cfg", only_row=case["row"])
+            decompile_direction(chk, wd, gen_stored("Gen_StoredTimes.cfg" if rtier == "quick" else "Gen_StoredTimes_wide.cfg", wd),
+                                only_row=case["row"], quick=False)
         return
     t0 = time.time()
-    compile_direction(chk, wd, cfgs)
+    # both generators are independent TLC jobs: run them side by side
+    with ThreadPoolExecutor(max_workers=2) as ex:
+        f_labels = ex.submit(gen_label_seqs, tier, wd)
+        f_stored = ex.submit(gen_stored, stored_cfg, wd)
+        gen_l, gen_s = f_labels.result(), f_stored.result()
     t1 = time.time()
-    decompile_direction(chk, wd, stored_cfg)
-    chk.set("phase_wall_s", {"compile_direction": round(t1 - t0, 1), "decompile_direction": round(time.time() - t1, 1)})
+    compile_direction(chk, wd, gen_l)
+    t2 = time.time()
+    decompile_direction(chk, wd, gen_s, quick=quick)
+    chk.set("phase_wall_s", {"tlc_generators": round(t1 - t0, 1), "compile_direction": round(t2 - t1, 1), "decompile_direction": round(time.time() - t2, 1)})
     chk.set("exhaustive", True)
-    chk.set("rule", "compile: every token sequence of the machine of Gen_LabelSeqs within the bounds of the configurations %s; "
-                    "decompile: every stored time sequence / jump choice of %s" % (", ".join(cfgs), stored_cfg))
+    chk.set("rule", "compile: every token sequence of the machine of Gen_LabelSeqs within the bounds of Gen_LabelSeqs_%s.cfg; "
+                    "decompile: every stored time sequence / jump choice of %s" % (tier, stored_cfg))
     chk.assume("times are compared on the in-memory RawInstr.time; narrowing to the file's field width is C03")
     chk.assume("decompiler output containing break/continue/if-else is not read by StoredTimes.tla (counted in trees_unsupported_construct)")
